@@ -177,7 +177,8 @@ def run(ctx):
                                 for down in (0, 1):
                                     for batched in (False, True):
                                         if not ctx.thorough():
-                                            if (p + f + dt + s + down + int(batched)) % 3 != (len(sig) % 3):
+                                            # quick: every (p, f, dt, s) for the un-batched, un-pooled variant; a third of the rest
+                                            if (down or batched) and dhash((p, f, dt, s, down, batched, len(sig))) % 3:
                                                 continue
                                         if down and D == 3 and not ctx.thorough():
                                             continue
